@@ -381,6 +381,12 @@ func sesRun(t *testing.T, lines []string) []string {
 				wrapBody = func(r io.Reader) io.Reader { return &stallReader{r: r, gate: gate} }
 				w.request("POST", w.sesURL(sess(f[2])), http.Header{"Content-Type": {"text/plain;charset=UTF-8"}}, unhx(f[3]), false, false)
 				wrapBody = nil
+			case "sendslow": // ses sendslow <s> <hex>: the message data is a reader that stalls after one byte until "ses unpark"
+				gate := make(chan struct{})
+				w.parkMu.Lock()
+				w.listenerParked = append(w.listenerParked, gate)
+				w.parkMu.Unlock()
+				sess(f[2]).Send(&stallReader{r: bytes.NewReader(unhx(f[3])), gate: gate}, nil, nil)
 			case "postj": // ses postj <s> <hex payload>: a JSONP client submits the payload as form field d
 				esc := strings.ReplaceAll(string(unhx(f[3])), "\\n", "\\\\n")
 				esc = strings.ReplaceAll(esc, "\n", "\\n")
